@@ -655,8 +655,16 @@ fn path_str(p: &syn::Path) -> String {
 fn x1_path(p: &mut syn::Path, qself: &mut Option<syn::QSelf>) -> bool {
     // <End as DimSub<Start>>::Output  /  <C1 as DimAdd<C2>>::Output  -> usize
     if let Some(q) = qself {
-        let _ = q;
         let s = path_str(p);
+        // <Model::ScalarType as ComplexField>::RealField -> Sc (the scalar type of the prelude is real)
+        let qt = norm(&q.ty.to_token_stream().to_string());
+        if ["Model::ScalarType", "Self::ScalarType", "ScalarType", "Sc"].contains(&qt.as_str())
+            && ["ComplexField::RealField", "nalgebra::ComplexField::RealField", "RealField::RealField"].contains(&s.as_str())
+        {
+            *p = parse_quote!(Sc);
+            *qself = None;
+            return true;
+        }
         if (s.starts_with("DimSub<") || s.starts_with("DimAdd<") || s.starts_with("nalgebra::DimSub<") || s.starts_with("nalgebra::DimAdd<")) && s.contains("::Output") {
             // keep trailing segments after Output (e.g. ::from_usize)
             let mut segs: Vec<syn::PathSegment> = vec![];
@@ -1339,6 +1347,14 @@ impl VisitMut for Pass {
         // X12 first (pre-order): the closure literal of an Option/Result combinator disappears into a match
         if let Some(n) = self.x12(e) {
             *e = n;
+        }
+        // X1: `n as f64` for an unsigned machine integer n -> the prelude's exact conversion (floats are reals, DESIGN 11)
+        if let Expr::Cast(c) = e {
+            if norm(&c.ty.to_token_stream().to_string()) == "f64" {
+                let inner = &c.expr;
+                *e = parse_quote!(__vp_usize_as_f64(#inner));
+                self.rw.note("X1", line);
+            }
         }
         // X16 (pre-order): reference patterns in match arms and if-let
         match e {
